@@ -305,7 +305,7 @@ func ruleIDClosure(c *Ctx) []Obligation {
 		if n > 1 {
 			con = fmt.Sprintf("%s #%d", con, n)
 		}
-		if derivesFrom(st.Val, isValuesLoad) {
+		if sliceIsOneOf(c, st.Val, isValuesLoad) {
 			obs = append(obs, bad(R, con, c.InstrPos(st), "on some path the list stored is the accumulated direct-children list itself, not the result of the closure walk: that list has one entry per base statement, so an identity naming the same base twice (or through two prefixes) is listed twice, and nothing removes the duplicates"))
 		} else {
 			obs = append(obs, ok(R, con, c.InstrPos(st), "the stored list is built from a fresh slice through the de-duplicating walk on every path"))
@@ -400,8 +400,8 @@ func idClosureOnce(c *Ctx, fn *ssa.Function, idT *types.Named) []Obligation {
 	var roots []rootCall
 	for _, ci := range c.callsInDeep(fn, func(ci ssa.CallInstruction) bool { return true }) {
 		cal := ci.Common().StaticCallee()
-		if cal == nil || !c.isRepoFn(cal) || len(c.callsTo(cal, cal)) == 0 {
-			continue
+		if cal == nil || !c.isRepoFn(cal) {
+			continue // (the walker may recurse or keep a work list of its own)
 		}
 		var l, sn ssa.Value
 		for _, a := range ci.Common().Args {
@@ -418,7 +418,7 @@ func idClosureOnce(c *Ctx, fn *ssa.Function, idT *types.Named) []Obligation {
 		}
 	}
 	if walker == nil {
-		return []Obligation{undecided(R, con, c.Pos(fn.Pos()), "no recursive walker taking an identity list and a visited set is called")}
+		return []Obligation{undecided(R, con, c.Pos(fn.Pos()), "no walker taking an identity list and a visited set is called")}
 	}
 	// how the walker adds to the list
 	scan := false
@@ -1163,4 +1163,82 @@ func (c *Ctx) devOrderCursor(R string, fn *ssa.Function, body map[*ssa.BasicBloc
 		}
 	}
 	return obs
+}
+
+// sliceIsOneOf: the slice value v can be (a re-slice or an append-extension of) a slice for which pred holds —
+// followed through phis, re-slicing, the first operand of append, and the results of repo functions with their
+// parameters replaced by the arguments. What is *put into* a slice (the other operands of append, element loads) is
+// not followed: the question is which list this is, not where its members come from.
+func sliceIsOneOf(c *Ctx, v ssa.Value, pred func(ssa.Value) bool) bool {
+	type frame map[*ssa.Parameter]ssa.Value
+	seen := map[ssa.Value]bool{}
+	var walk func(x ssa.Value, env []frame, d int) bool
+	walk = func(x ssa.Value, env []frame, d int) bool {
+		if x == nil || d > 24 {
+			return false
+		}
+		if pred(x) {
+			return true
+		}
+		if seen[x] && len(env) == 0 {
+			return false
+		}
+		seen[x] = true
+		switch y := x.(type) {
+		case *ssa.Phi:
+			for _, e := range y.Edges {
+				if walk(e, env, d+1) {
+					return true
+				}
+			}
+		case *ssa.Slice:
+			return walk(y.X, env, d+1)
+		case *ssa.ChangeType:
+			return walk(y.X, env, d+1)
+		case *ssa.UnOp:
+			// a variable kept in a cell: what is stored there
+			if al, isA := y.X.(*ssa.Alloc); isA && y.Op == token.MUL {
+				for _, r := range *al.Referrers() {
+					if st, isS := r.(*ssa.Store); isS && st.Addr == ssa.Value(al) {
+						if walk(st.Val, env, d+1) {
+							return true
+						}
+					}
+				}
+			}
+		case *ssa.Parameter:
+			for i := len(env) - 1; i >= 0; i-- {
+				if a, has := env[i][y]; has {
+					return walk(a, env[:i], d+1)
+				}
+			}
+		case *ssa.Call:
+			if b, isB := y.Call.Value.(*ssa.Builtin); isB && b.Name() == "append" && len(y.Call.Args) > 0 {
+				return walk(y.Call.Args[0], env, d+1)
+			}
+			cal := y.Call.StaticCallee()
+			if cal == nil || !c.isRepoFn(cal) || cal.Blocks == nil || len(env) > 4 {
+				return false
+			}
+			fr := frame{}
+			for i, p := range cal.Params {
+				if i < len(y.Call.Args) {
+					fr[p] = y.Call.Args[i]
+				}
+			}
+			for _, b := range cal.Blocks {
+				if r, isR := b.Instrs[len(b.Instrs)-1].(*ssa.Return); isR && b != cal.Recover {
+					for _, res := range r.Results {
+						if _, isSl := res.Type().Underlying().(*types.Slice); isSl {
+							if walk(resolveSpill(res, r), append(append([]frame{}, env...), fr), d+1) {
+								return true
+							}
+						}
+					}
+				}
+			}
+		}
+		return false
+	}
+	return walk(v, nil, 0)
 }
